@@ -165,27 +165,148 @@ def batch(arg):
                     fault = check_schedule(sched)
                     if fault:
                         break
-                if fault:
-                    mech = None
-                    if fault[0] == "colours_loop_inside_parallel_region" \
-                            and hist and hist[-1] in (
-                                "OMPParallelTrans", "ACCParallelTrans",
-                                "ACCKernelsTrans"):
-                        # the region transformation applied LAST enclosed an
-                        # existing loop over colours
-                        mech = "region_trans_encloses_colours_loop:" + \
-                            hist[-1]
-                    part.violation({
-                        "kind": fault[0], "mechanism": mech,
-                        "what": "%s (dm=%s) invoke %s after %s: %s" % (
-                            fname, dm, inv.name, hist, fault[1]),
-                        "file": fname, "history": hist,
-                        "dedupe": (fault[0], mech,
-                                   hist[-1] if hist else "")})
+                judge(part, psy, hist, fault, fname, dm, inv)
                 part.case(key=(fname, dm, tuple(hist)),
                           nontrivial=bool(hist),
                           sample={"file": fname, "dm": dm, "history": hist}
                           if hist and len(part.d["samples"]) < 2 else None)
+    return part
+
+
+def judge(part, psy, hist, fault, fname, dm, inv):
+    """Classify and record a fault found on the schedule after `hist`."""
+    if not fault:
+        return
+    mech = None
+    if fault[0] == "colours_loop_inside_parallel_region" and hist and \
+            hist[-1] in ("OMPParallelTrans", "ACCParallelTrans",
+                         "ACCKernelsTrans"):
+        # the region transformation applied LAST enclosed an existing loop
+        # over colours
+        mech = "region_trans_encloses_colours_loop:" + hist[-1]
+    if fault[0] == "colours_loop_inside_parallel_region" and \
+            "OMPParallelTrans" in hist:
+        # OpenMP has a code-generation backstop: the sequence only PRODUCES
+        # such code if psy.gen does not refuse it.
+        from psyclone.errors import GenerationError
+        try:
+            str(psy.gen)
+            if mech:
+                mech += ":code_generated"
+        except GenerationError as err:
+            if "loop over colours within" in str(err):
+                part.count("colours_in_omp_region_refused_at_generation")
+            else:
+                part.count("colours_in_omp_region_generation_other_error")
+            return
+        except Exception as err:
+            part.count("colours_in_omp_region_generation_crash:" +
+                       type(err).__name__)
+            return
+    part.violation({
+        "kind": fault[0], "mechanism": mech,
+        "what": "%s (dm=%s) invoke %s after %s: %s" % (
+            fname, dm, inv.name, hist, fault[1]),
+        "file": fname, "history": hist,
+        "dedupe": (fault[0], mech, hist[-1] if hist else "")})
+
+
+def directed_batch(arg):
+    """Scripted histories: colour every loop that accepts it, then put the
+    loop over colours / the loop over cells of one colour under every region
+    and loop transformation, in both orders."""
+    from psyclone.configuration import Config
+    from psyclone.parse.algorithm import parse
+    from psyclone.psyGen import PSyFactory
+    from psyclone.psyir.nodes import Loop
+    from psyclone.errors import PSycloneError
+    from psyclone import transformations as T
+    from psyclone.psyir.transformations import ACCKernelsTrans, OMPLoopTrans
+    part = Part()
+    Config.get().api = "lfric"
+    region = {"OMPParallelTrans": T.OMPParallelTrans,
+              "ACCParallelTrans": T.ACCParallelTrans,
+              "ACCKernelsTrans": ACCKernelsTrans}
+    inner = {"Dynamo0p3OMPLoopTrans": T.Dynamo0p3OMPLoopTrans,
+             "OMPLoopTrans(generic)": OMPLoopTrans,
+             "ACCLoopTrans": T.ACCLoopTrans, None: None}
+    outer_loop = {"DynamoOMPParallelLoopTrans": T.DynamoOMPParallelLoopTrans,
+                  "Dynamo0p3OMPLoopTrans": T.Dynamo0p3OMPLoopTrans,
+                  "OMPParallelLoopTrans(generic)": T.OMPParallelLoopTrans,
+                  "ACCLoopTrans": T.ACCLoopTrans}
+    scripts = []
+    for rname in region:
+        for iname in inner:
+            scripts.append(("colour", ("region", rname), ("inner", iname)))
+            scripts.append(("colour", ("inner", iname), ("region", rname)))
+    for oname in outer_loop:
+        scripts.append(("colour", ("outer", oname)))
+        scripts.append((("outer", oname),))      # uncoloured loop directly
+        for rname in ("OMPParallelTrans", "ACCParallelTrans"):
+            scripts.append((("region0", rname), ("outer", oname)))
+    for fname in arg["files"]:
+        try:
+            _, info = parse(os.path.join(ALG_DIR, fname), api="lfric")
+        except Exception:
+            part.count("alg_parse_failed")
+            continue
+        for dm in (False, True):
+            try:
+                probe = PSyFactory("lfric", distributed_memory=dm).create(info)
+                shape = [(i, len(inv.schedule.walk(Loop)))
+                         for i, inv in enumerate(probe.invokes.invoke_list)]
+            except Exception:
+                part.count("psy_create_failed")
+                continue
+            for iidx, nloops in shape[:2]:
+                for lidx in range(min(nloops, 3)):
+                    for script in scripts:
+                        psy = PSyFactory("lfric", distributed_memory=dm)\
+                            .create(info)
+                        inv = psy.invokes.invoke_list[iidx]
+                        sched = inv.schedule
+                        loop = sched.walk(Loop)[lidx]
+                        hist = []
+                        fault = None
+                        for step in script:
+                            try:
+                                if step == "colour":
+                                    T.Dynamo0p3ColourTrans().apply(loop)
+                                    hist.append("Dynamo0p3ColourTrans")
+                                    continue
+                                kind, name = step
+                                if name is None:
+                                    continue
+                                # after colouring, the loop over colours
+                                # took the place of the original loop
+                                coloured = "Dynamo0p3ColourTrans" in hist
+                                top = sched.walk(Loop)[lidx]
+                                loop = sched.walk(Loop)[lidx + 1] \
+                                    if coloured else top
+                                if kind in ("region", "region0"):
+                                    tgt = top
+                                    while tgt.parent is not sched:
+                                        tgt = tgt.parent
+                                    region[name]().apply(tgt)
+                                elif kind == "inner":
+                                    inner[name]().apply(loop)
+                                else:
+                                    outer_loop[name]().apply(top)
+                                hist.append(name)
+                                part.count("accepted:" + name)
+                            except PSycloneError:
+                                part.count("refused")
+                                continue
+                            except Exception as err:
+                                part.count("crash:%s" % type(err).__name__)
+                                continue
+                            part.count("invariant_evaluations")
+                            fault = check_schedule(sched)
+                            if fault:
+                                break
+                        judge(part, psy, hist, fault, fname, dm, inv)
+                        part.case(key=("directed", fname, dm, iidx, lidx,
+                                       tuple(hist)), nontrivial=bool(hist))
     return part
 
 
@@ -213,6 +334,12 @@ def main(ctx):
              "histories": 6 if ctx.quick else 25, "maxlen": 6}
             for k in range(nchunks)]
     for res in ctx.pmap("vf.checks.c23", "batch", jobs, timeout=3400):
+        if res:
+            ctx.merge(res)
+    dfiles = chosen[:7 + (8 if ctx.quick else 60)]
+    djobs = [{"files": dfiles[k::16]} for k in range(16)]
+    for res in ctx.pmap("vf.checks.c23", "directed_batch", djobs,
+                        timeout=3400):
         if res:
             ctx.merge(res)
     if ctx.counters.get("invariant_evaluations", 0) == 0:
